@@ -3,6 +3,6 @@ CONSTANTS
   Clients = {"alice", "bob"}
   Streams = {"s1", "s2", "__cursors"}
   AuthFirst = TRUE
-  GroupAuthz = FALSE
+  GroupAuthz = TRUE
 POSTCONDITION Done
 CHECK_DEADLOCK FALSE
